@@ -7,7 +7,11 @@ dir=$1; prop=$2; suite=$3
 wt=/tmp/vw-$$
 git -C /repo worktree add -q $wt HEAD || exit 3
 trap "git -C /repo worktree remove --force $wt" EXIT
-if ! git -C $wt apply $dir/patch.diff; then echo "PATCH-DOES-NOT-APPLY"; exit 3; fi
+if ! git -C $wt apply $dir/patch.diff 2>/dev/null; then
+  # the repository moved on since the change was written (later fix: commits): merge it
+  if ! git -C $wt apply --3way $dir/patch.diff; then echo "PATCH-DOES-NOT-APPLY"; exit 3; fi
+  echo "(patch applied with a 3-way merge onto the current HEAD)"
+fi
 echo "== demo on unchanged tree:"; (cd $dir && PYTHONPATH=/repo/src timeout 300 /venv/bin/python demo.py > /tmp/seed-demo-$$.out 2>&1; echo "demo_rc_unchanged=$?"; tail -2 /tmp/seed-demo-$$.out)
 echo "== demo on patched tree:"; (cd $dir && PYTHONPATH=$wt/src timeout 300 /venv/bin/python demo.py > /tmp/seed-demo-$$.out 2>&1; echo "demo_rc_patched=$?"; tail -3 /tmp/seed-demo-$$.out); rm -f /tmp/seed-demo-$$.out
 if [ -n "$suite" ]; then
